@@ -1,3 +1,5 @@
+use std::collections::HashSet;
+
 use emmylua_parser::{
     LuaAstNode, LuaClosureExpr, LuaLiteralExpr, LuaParseErrorKind, LuaSyntaxKind, LuaSyntaxToken,
     LuaTokenKind, float_token_value, int_token_value,
@@ -14,11 +16,17 @@ impl Checker for SyntaxErrorChecker {
 
     fn check(context: &mut DiagnosticContext, semantic_model: &SemanticModel) {
         if let Some(parse_errors) = semantic_model.get_file_parse_error() {
+            // the parser can report the identical error (same range, same message) more than once
+            let mut reported = HashSet::new();
             for parse_error in parse_errors {
                 let code = match parse_error.kind {
                     LuaParseErrorKind::SyntaxError => DiagnosticCode::SyntaxError,
                     LuaParseErrorKind::DocError => DiagnosticCode::DocSyntaxError,
                 };
+
+                if !reported.insert((code, parse_error.range, parse_error.message.clone())) {
+                    continue;
+                }
 
                 context.add_diagnostic(code, parse_error.range, parse_error.message, None);
             }
